@@ -99,7 +99,7 @@ def _mgda(case, sig):
         dist = float(np.linalg.norm(out - xstar))
         nd = math.sqrt(dd)
         tol = 16 * n * eps * math.sqrt(maxG) + (min(nd * (1 + 1e-6), 64 * (n + 4) * eps * maxG / nd) if nd > 0 else 0.0)
-        if dist > tol + 1e-300:
+        if not (dist <= tol + 1e-300):  # (NaN-proof)
             return fail(sig, nontrivial, "C18.mgda", "two rows: output is not the minimum-norm point of the segment",
                         out, xstar, J=Jn, dist=dist, tol=tol)
     return ok(sig, nontrivial)
@@ -279,7 +279,7 @@ def _pcgrad(case, sig):
     nontrivial = nproj >= 1
     scale = float(np.linalg.norm(Jn, axis=1).sum())
     tol = 256 * m * (n + m) * eps * scale + 1e-300
-    if float(np.linalg.norm(out - exp)) > tol:
+    if not (float(np.linalg.norm(out - exp)) <= tol):  # (NaN-proof)
         what = ("output differs from the sum of the rows (no conflicting pair)" if nproj == 0 else
                 "output differs from the sum of the successively projected rows for these projection orders")
         return fail(sig, nontrivial, "C18.pcgrad", what, out, exp, J=Jn, orders=orders)
